@@ -7,9 +7,11 @@ ID = 'C11'
 HERE = os.path.dirname(os.path.abspath(__file__))
 CASES = {'quick': 20000, 'thorough': 400000}
 PARALLEL = True
-RULE = ('random lineages (depth<=6, ACL length<=6, missing/empty ACLs; __acl__ as list/tuple/callable returning a list/generator method '
-        'returning a one-shot iterator, found on the instance, on the class or through a property (also a property raising '
-        'AttributeError); ACEs as tuples or lists, the DENY_ALL constants themselves; the permission field of an ACE as bare str, '
+RULE = ('random lineages (depth<=6, and 1.5 % deep ones: 120, 1100 and around every integer constant location.py / authorization.py '
+        'mention; ACL length<=6, missing/empty ACLs; __acl__ as list/tuple/callable returning a list/generator method '
+        'returning a one-shot iterator/callable that calls back into the same helper, policy and registry with other arguments '
+        '(also a nested call that fails) while it computes the ACL; the very same ACL object at several levels of one lineage; '
+        'found on the instance, on the class or through a property (also a property raising AttributeError); ACEs as tuples or lists, the DENY_ALL constants themselves; the permission field of an ACE as bare str, '
         'str-subclass instance, list/tuple/set/frozenset/dict/keys view/iterable-only object/one-shot generator, the all-permissions '
         'marker of pyramid.authorization, of legacy pyramid.security, a fresh instance, an application subclass, or an object without '
         '__iter__ (int, None, object); permission names incl. proper substrings of each other and every string constant the anchored '
@@ -21,7 +23,9 @@ RULE = ('random lineages (depth<=6, ACL length<=6, missing/empty ACLs; __acl__ a
 ASSUMPTIONS = ['ACE actions are compared with == against the Allow/Deny constants; principals and requested permissions are str',
                'a callable __acl__ is modelled by the list it returns (also when it returns a one-shot iterator: the translator '
                'admits at most one iteration over an __acl__ value per path, and at most one membership test in an ACE permission '
-               'field per path); lineage() is modelled as the __parent__ chain',
+               'field per path); resources are indices into a world of __parent__ pointers (missing / None / resource), lineage() is '
+               'regenerated from the source (gen_lineage, fuelled while loop); __parent__ cycles (an infinite generator) are excluded '
+               'by the fuel premise of the theorems',
                'ACLs are well-formed (every ACE a 3-sequence; the permission field a str, an iterable of str, an all-permissions '
                'marker or an object without __iter__): exceptions raised on other malformed ACLs (e.g. __acl__ = None) are outside '
                'the translated fragment',
@@ -29,15 +33,17 @@ ASSUMPTIONS = ['ACE actions are compared with == against the Allow/Deny constant
                '(AllPermissionsList.__eq__ is an isinstance test; pinned)']
 TRUSTED = ['translator harness/c11/translate.py: its PRIMITIVE TABLE (which Python leaf expression / idiom / result constructor '
            'means which primitive of coq/Model/C11_base.v) and its mechanical statement-to-term rules; the control flow of '
-           'ACLHelper.permits / principals_allowed_by_permission, of util.is_nonstr_iter and of AllPermissionsList.__contains__ is '
-           'regenerated from the source on every run (C11_generated_*_is_model, C11_permission_test_is_containment)',
+           'ACLHelper.permits / principals_allowed_by_permission, of util.is_nonstr_iter, of AllPermissionsList.__contains__ and of '
+           'location.lineage (harness/c11/translate_lineage.py: generator with a while loop) is regenerated from the source on '
+           'every run (C11_generated_*_is_model, C11_permission_test_is_containment, C11_generated_lineage_is_model)',
            'primitives of coq/Model/C11_base.v (sets as duplicate-free lists; is_str / has_iter / normalise / contains on the four '
            'kinds of permission-field objects; is_allow/is_deny; decision) as models of the Python operations the table maps to them',
            'public entry points: ACLAuthorizationPolicy is translated (delegation); request.has_permission, LegacySecurityPolicy.permits, '
            'security.principals_allowed_by_permission are hand-modelled (Model/C11.v has_permission, sec_principals_allowed) under '
            'name-blanked shape pins; view_execution_permitted is pinned and exercised; all run in real registries by every case '
            '(harness/c11/entry.py)',
-           'pyramid.location.lineage, AllPermissionsList.__iter__/__eq__, ACLPermitsResult/ACLAllowed/ACLDenied (shape-pinned); '
+           'AllPermissionsList.__iter__/__eq__, ACLPermitsResult/ACLAllowed/ACLDenied (shape-pinned); viewderivers.secured_view / '
+           '_secured_view / preserve_view_attrs (name-blanked pins: they make the __permitted__ view_execution_permitted calls); '
            'module- and class-level statements of authorization.py, security.py, location.py (skeleton pin, harness/c11/skeleton.py)']
 
 PRINCIPALS = ['system.Everyone', 'system.Authenticated', 'alice', 'bob', 'g:ed']
@@ -79,6 +85,37 @@ def harvest(src):
     return res
 
 
+def harvest_ints(src):
+    """every integer constant >= 8 the lineage / ACL code itself mentions (pyramid/location.py, pyramid/authorization.py):
+    a bound the code could apply to the depth of a lineage or the length of an ACL must occur there"""
+    import ast
+    out = []
+    for rel in ('pyramid/location.py', 'pyramid/authorization.py'):
+        try:
+            tree = F.Module(src, rel).tree
+        except Exception:
+            continue
+        for n in ast.walk(tree):
+            if isinstance(n, ast.Constant) and type(n.value) is int and 8 <= n.value <= 3000 and n.value not in out:
+                out.append(n.value)
+    return out
+
+
+_DEPTHS = []
+
+
+def deep_depths():
+    """lineage depths far beyond the usual ones: around every integer the code mentions, 120, and 1100 (beyond the
+    interpreter's default recursion limit)"""
+    if not _DEPTHS:
+        from harness.common import build
+        ds = [120, 1100]
+        for k in harvest_ints(build.SRC):
+            ds += [k - 1, k, k + 1, 2 * k + 3]
+        _DEPTHS.extend(sorted(set(d for d in ds if 8 <= d <= 3000)))
+    return _DEPTHS
+
+
 def pool():
     if not _POOL:
         from harness.common import build
@@ -89,7 +126,9 @@ def pool():
 def pick_perm(rng):
     return rng.choice(pool()) if rng.random() < 0.12 else rng.choice(PERMS)
 PFORMS = ('list', 'tuple', 'set', 'frozenset')
-FORMS = (False, True, 'gen', 'tuple')     # values of loc['callable']: list / callable->list / generator method / tuple
+# values of loc['callable']: list / callable->list / generator method / tuple / a callable that, while it computes the ACL,
+# calls back into the same long-lived helper and policy objects with OTHER arguments (re-entrancy)
+FORMS = (False, True, 'gen', 'tuple', 'reenter')
 
 
 def facts(src):
@@ -154,11 +193,20 @@ def gen_perms(rng):
 
 def gen_case(rng):
     depth = rng.choice([1, 1, 2, 2, 3, 3, 4, 5, 6])
+    deep = rng.random() < 0.015
+    if deep:
+        depth = rng.choice(deep_depths())
     lin = []
-    for _ in range(depth):
+    for k in range(depth):
         r = rng.random()
-        if r < 0.15:
-            lin.append(None)
+        if (deep and 3 <= k < depth - 3) or r < 0.15:
+            lin.append(None)                          # (a deep lineage carries its ACLs at both ends)
+            continue
+        if r < 0.27 and any(x is not None for x in lin[-6:]):
+            # the VERY SAME ACL object as a location further down (an ACL shared through a class attribute or a module-
+            # level list): not a copy
+            j = rng.choice([i for i in range(max(0, k - 6), k) if lin[i] is not None])
+            lin.append({'callable': False, 'aces': [], 'share': j})
             continue
         n = rng.choice([0, 1, 1, 2, 2, 3, 4, 6])
         aces = []
@@ -169,7 +217,8 @@ def gen_case(rng):
         # form of the ACL object: a list, a tuple, a callable returning the list, or a callable written as a
         # generator (returns a fresh ONE-SHOT iterator on every call)
         r = rng.random()
-        loc = {'callable': True if r < 0.15 else 'gen' if r < 0.33 else 'tuple' if r < 0.40 else False, 'aces': aces}
+        loc = {'callable': True if r < 0.13 else 'gen' if r < 0.30 else 'tuple' if r < 0.37 else 'reenter' if r < 0.45 else False,
+               'aces': aces}
         if rng.random() < 0.12:
             loc['acelist'] = True                     # every ACE a list [action, principal, permissions] instead of a tuple
         r = rng.random()
@@ -242,9 +291,11 @@ def valid(case):
         if 'falsy' in case and (len(case['falsy']) != len(case['lineage']) or
                                 not all(isinstance(b, bool) for b in case['falsy'])):
             return False
-        for loc in case['lineage']:
+        for k, loc in enumerate(case['lineage']):
             if loc is None:
                 continue
+            if 'share' in loc and not (type(loc['share']) is int and 0 <= loc['share'] < k):
+                return False
             if loc['callable'] not in FORMS or loc.get('via', 'attr') not in ('attr', 'class', 'prop') \
                     or loc.get('acelist', False) not in (False, True):
                 return False
@@ -282,14 +333,24 @@ def _perm_wire(p):
     return [1, list(p['names'])]                       # PNames
 
 
+def _src(case, k):
+    """index of the location whose ACL object location k carries (k itself unless it shares another one's)"""
+    lin = case['lineage']
+    while lin[k] is not None and 'share' in lin[k] and lin[lin[k]['share']] is not None:
+        k = lin[k]['share']
+    return k
+
+
 def to_wire(case):
     lin = []
-    for loc in case['lineage']:
+    for k, loc in enumerate(case['lineage']):
+        if loc is not None:
+            loc = case['lineage'][_src(case, k)]
         if loc is None:
             lin.append([])
         else:
             lin.append([[[{'Allow': 1, 'Deny': 0}.get(a[0], 2), a[1], _perm_wire(a[2])] for a in loc['aces']]])
-    return [lin, list(case['principals']), case['permission']]
+    return [lin, list(case['principals']), case['permission'], 1 if case.get('root') == 'missing' else 0]
 
 
 def from_wire(case, raw):
@@ -406,38 +467,90 @@ def _perm_value(p):
     return {'list': list, 'tuple': tuple, 'set': set, 'frozenset': frozenset}[kind](names)
 
 
+_NOACL = {}
+
+
+def _noacl_class(base):
+    if base not in _NOACL:
+        _NOACL[base] = type('_NoAcl', (base,), {'__acl__': property(_raise_attr)})
+    return _NOACL[base]
+
+
+def _reenter(case):
+    """what a callable __acl__ may legitimately do while it computes its ACL: ask the SAME long-lived helper / policy
+    objects about another resource, other principals and another permission.  The answers are not used."""
+    if _impl.get('busy'):
+        return
+    _impl['busy'] = True
+    try:
+        other = _Loc()
+        other.__acl__ = [(_impl['Allow'], 'zed', _impl['ALL']), (_impl['Deny'], _impl['Everyone'], _impl['ALL'])]
+        other.__parent__ = None
+        ps = [x for x in PRINCIPALS if x not in case['principals']] + ['zed']
+        perm = [x for x in PERMS if x != case['permission']][0]
+        h, w = _impl['helper'], _impl['world']
+        broken = _Loc()
+        broken.__acl__ = [(_impl['Allow'], 'zed')]     # a malformed ACE: the nested call FAILS (ValueError) half-way
+        broken.__parent__ = other
+        for f in (lambda: h.permits(broken, ps, perm), lambda: h.principals_allowed_by_permission(broken, perm),
+                  lambda: w.policy.permits(broken, ps, perm),
+                  lambda: h.permits(other, ps, perm), lambda: h.principals_allowed_by_permission(other, perm),
+                  lambda: w.policy.permits(other, ps, perm), lambda: w.policy.principals_allowed_by_permission(other, perm),
+                  lambda: w.has_permission(other, ps, perm), lambda: w.principals_allowed(other, perm)):
+            try:
+                f()
+            except Exception:
+                pass
+    finally:
+        _impl['busy'] = False
+
+
 def _build(case):
     """fresh resource objects for ONE call of the code under test (ACE permission fields may be one-shot iterators)"""
     locs = []
     falsy = case.get('falsy') or []
-    for k, loc in enumerate(case['lineage']):
+    lin = case['lineage']
+    shared = {_src(case, k) for k, loc in enumerate(lin) if loc is not None and _src(case, k) != k}
+    built = {}                                          # source index -> (ACL object, its ACE objects)
+    for k, loc in enumerate(lin):
         base = _EmptyFolder if (k < len(falsy) and falsy[k]) else _Loc
         if loc is None:
             if case.get('noacl') == 'raises':
                 # no ACL: reading __acl__ raises AttributeError from a property
-                base = type('_NoAcl', (base,), {'__acl__': property(_raise_attr)})
+                base = _noacl_class(base)
             locs.append(base())
             continue
-        aces = []
-        for a in loc['aces']:
-            act = {'Allow': _impl['Allow'], 'Deny': _impl['Deny']}.get(a[0], 'Perhaps')
-            if loc.get('acelist'):
-                aces.append([act, a[1], _perm_value(a[2])])
-            elif a[0] == 'Deny' and a[1] == _impl['Everyone'] and a[2] == 'ALL':
-                aces.append(_impl['DENY_ALL'])              # the constant itself
-            elif a[0] == 'Deny' and a[1] == _impl['Everyone'] and a[2] == 'ALL_LEGACY':
-                aces.append(_impl['DENY_ALL_LEGACY'])
-            else:
-                aces.append(tuple([act, a[1], _perm_value(a[2])]))
-        form = loc['callable']
-        if form == 'gen':
-            value = (lambda aces=aces: (e for e in aces))     # a fresh one-shot iterator per call
-        elif form == 'tuple':
-            value = tuple(aces)
-        elif form:
-            value = (lambda aces=aces: aces)
+        src = _src(case, k)
+        if src in built:
+            value, aces = built[src]                    # the very same object, not a copy
         else:
-            value = aces
+            sloc = lin[src]
+            aces = []
+            for a in sloc['aces']:
+                act = {'Allow': _impl['Allow'], 'Deny': _impl['Deny']}.get(a[0], 'Perhaps')
+                pf = a[2]
+                if src in shared and isinstance(pf, dict) and pf['kind'] == 'gen':
+                    pf = dict(pf, kind='iter')          # an ACL applied at two levels cannot hold one-shot iterators
+                if sloc.get('acelist'):
+                    aces.append([act, a[1], _perm_value(pf)])
+                elif a[0] == 'Deny' and a[1] == _impl['Everyone'] and pf == 'ALL':
+                    aces.append(_impl['DENY_ALL'])              # the constant itself
+                elif a[0] == 'Deny' and a[1] == _impl['Everyone'] and pf == 'ALL_LEGACY':
+                    aces.append(_impl['DENY_ALL_LEGACY'])
+                else:
+                    aces.append(tuple([act, a[1], _perm_value(pf)]))
+            form = sloc['callable']
+            if form == 'gen':
+                value = (lambda aces=aces: (e for e in aces))     # a fresh one-shot iterator per call
+            elif form == 'tuple':
+                value = tuple(aces)
+            elif form == 'reenter':
+                value = (lambda aces=aces: (_reenter(case), aces)[1])
+            elif form:
+                value = (lambda aces=aces: aces)
+            else:
+                value = aces
+            built[src] = (value, aces)
         via = loc.get('via', 'attr')
         if via == 'class':
             # found on the class (a function stored on a class would become a bound method: keep it a plain callable)
@@ -542,7 +655,7 @@ def nontrivial(case, obs):
 def kinds(case, obs):
     d = obs[0]
     k = ['allowed' if d[0] == 1 and len(d) == 3 else 'denied-by-ace' if len(d) == 3 else 'default-deny' if d[0] == 0 else 'exc']
-    k.append('depth%d' % len(case['lineage']))
+    k.append('depth%d' % len(case['lineage']) if len(case['lineage']) <= 6 else 'depth>6')
     if any(case.get('falsy') or []):
         k.append('has-falsy-resource')
     if case.get('sub'):
@@ -570,8 +683,13 @@ def kinds(case, obs):
         k.append('acl-on-class-or-property')
     if any(loc.get('acelist') for loc in case['lineage'] if loc):
         k.append('ace-as-list')
+    if any('share' in loc for loc in case['lineage'] if loc):
+        k.append('has-shared-acl-object')
+    if len(case['lineage']) > 6:
+        k.append('deep-lineage')
     forms = {loc['callable'] for loc in case['lineage'] if loc is not None}
-    for f, name in ((True, 'has-callable-acl'), ('gen', 'has-generator-acl'), ('tuple', 'has-tuple-acl')):
+    for f, name in ((True, 'has-callable-acl'), ('gen', 'has-generator-acl'), ('tuple', 'has-tuple-acl'),
+                    ('reenter', 'has-reentrant-callable-acl')):
         if f in forms:
             k.append(name)
     k.append('allowed-set-%s' % ('empty' if not obs[1] else 'nonempty'))
@@ -597,14 +715,17 @@ LEVEL_TEXT = ('Machine-checked theorems, for lineages and ACLs of any size, stat
               'C11_generated_*_is_model prove, by one induction per loop, that the regenerated program is the hand-written reference '
               'model; a semantics-preserving rewrite regenerates a different term and the same proofs go through, a change of meaning '
               'makes them fail. request.has_permission and security.principals_allowed_by_permission are modelled with their '
-              'no-policy branches (C11_has_permission_first_match, C11_sec_principals_allowed_consistent). The extracted program is '
+              'no-policy branches (C11_has_permission_first_match, C11_sec_principals_allowed_consistent). location.lineage is '
+              'regenerated too (gen_lineage over a world of __parent__ pointers): C11_lineage_exact proves that, for a lineage of ANY '
+              'length, it yields exactly the resource, its parent, ... up to the first one whose __parent__ is None or missing; '
+              'C11_world_permits_first_match / C11_world_allowed_consistent state the property end to end (lineage() then ACL scan); '
+              'C11_chain_world_acls ties the world the harness builds to the ACL list of the case. The extracted program is '
               'run differentially against the code through ACLHelper, ACLAuthorizationPolicy, request.has_permission (explicit and '
               'default context, with and without policy), security.principals_allowed_by_permission and view_execution_permitted.')
 LEVEL_NOTE = ('Trusted: Coq kernel; the translator (mechanical control-flow rules + the primitive table in the docstring of '
-              'harness/c11/translate.py -- the table is the trusted part; anything outside subset/table is a broken tie, never a '
-              'guess); the primitives of Model/C11_base.v; Python harness; lineage(), AllPermissionsList.__iter__/__eq__, the '
-              'ACLPermitsResult classes and the security.py entry points are shape-pinned and modelled by hand (lineage as the '
-              '__parent__ chain built by the harness); module/class-level statements of the three anchor files are pinned as a '
+              'harness/c11/translate.py and translate_lineage.py -- the table is the trusted part; anything outside subset/table is '
+              'a broken tie, never a guess); the primitives of Model/C11_base.v; Python harness; AllPermissionsList.__iter__/__eq__, the '
+              'ACLPermitsResult classes and the security.py entry points are shape-pinned and modelled by hand; module/class-level statements of the three anchor files are pinned as a '
               'skeleton. Callable ACLs are represented by the list they return. The consistency theorem assumes ACE actions are '
               'Allow or Deny (necessary: refuted without). A TypeError of `p in <non-iterable>` is modelled as False and shown '
               'unreachable under the regenerated is_nonstr_iter (C11_normalisation_wraps_exactly_the_non_iterables).')
